@@ -1,0 +1,14 @@
+//go:build !verif
+
+package smtp
+
+import "github.com/foxcpp/maddy/framework/module"
+
+// Trace hooks of the verification harness (/verif); no-ops without the build tag "verif".
+
+func verifSession(*Session)                                                    {}
+func verifCall(*Session, string, string) func()                                { return func() {} }
+func verifReplyErr(*Session, error)                                            {}
+func verifReplyCode(*Session, int)                                             {}
+func verifWrapped(*Endpoint, int)                                              {}
+func verifWrapDelivery(_ *Session, d module.Delivery, _ error) module.Delivery { return d }
